@@ -1,7 +1,113 @@
-(* Props/C06.v — property theorems only (each closed by [exact lemma]). *)
-From YQ Require Import Base.Str Model.Json.
+(* Props/C06.v — property theorems only (each closed by [exact lemma]).
 
-Theorem C06_bigint_via_float_refuted :
-  exists s z, parse_json s = Ok (JInt z) /\ s = dec_Z (z + 1).
-Proof. exists (dec_Z 9007199254740993), 9007199254740992%Z. vm_compute. split; reflexivity. Qed.
+   Reading guide.  [node] is yq's CandidateNode as the JSON encoder sees it;
+   [to_json] is MarshalJSON + GetValueRep; [enc_top ind v] the bytes goccy
+   prints for indent [ind] (0 = compact); [yq_encode] is jsonEncoder.Encode
+   (with the unwrap switch); [parse_json] the JSON reader with yq's int/float
+   classification through binary64; [of_json] the node UnmarshalJSON builds.
+   [ff] stands for strconv.ParseFloat followed by goccy's float printing: the
+   float *text* is never computed by the model, only passed through. *)
+From Coq Require Import ZArith String.
+From YQ Require Import Base.Str Model.Json Spec.JsonGrammar Proofs.JsonProofs.
+
+(* Always valid JSON: for every node tree, indent and float printer that
+   prints JSON numbers, whatever yq prints is an RFC 8259 text (well-formed
+   UTF-8 included) - except a top-level scalar with unwrapping on, which is
+   printed raw by design (see C06_unwrap_scalar_refuted). *)
+Theorem C06_valid : forall (ff : str -> res str) (ind : N) (unwrap : bool) (n : node) (out : str),
+  (forall t o, ff t = Ok o -> jnumber o) ->
+  unwrap = false \/ is_scalar n = false ->
+  yq_encode ff ind unwrap n = Ok out -> json_text out.
+Proof. exact yq_encode_valid. Qed.
+Print Assumptions C06_valid.
+
+Theorem C06_valid_value : forall (v : jvalue) (ind : N),
+  floats_ok jnumber v -> json_text (enc_top ind v).
+Proof. exact enc_top_valid. Qed.
+Print Assumptions C06_valid_value.
+
+(* Reading the output back gives the same value, for every indent: nested
+   containers, key order and duplicates, strings (well-formed UTF-8) to the
+   byte, integers up to 2^53 in magnitude.  Float tokens are outside. *)
+Theorem C06_decode_encode : forall (v : jvalue) (ind : N),
+  rt_domain v = true -> parse_json (enc_top ind v) = Ok v.
+Proof. exact decode_encode. Qed.
+Print Assumptions C06_decode_encode.
+
+(* Strings: any byte string reads back as itself with ill-formed UTF-8
+   replaced by U+FFFD, and a well-formed one is unchanged. *)
+Theorem C06_string_exact : forall (s : str) (ind : N),
+  parse_json (enc_top ind (JStr s)) = Ok (JStr (sanitize s))
+  /\ (valid_utf8 s = true -> sanitize s = s).
+Proof. intros s ind. split; [exact (string_exact s ind)|exact (valid_sanitize s)]. Qed.
+Print Assumptions C06_string_exact.
+
+(* Integers: every int64 written in decimal in the YAML node becomes exactly
+   that JSON integer; on the reading side exactness holds up to 2^53. *)
+Theorem C06_int_exact : forall (ff : str -> res str) (z : Z) (ind : N),
+  (- Z.of_N two63 <= z < Z.of_N two63)%Z ->
+  to_json ff (NScalar t_int (dec_Z z)) = Ok (JInt z)
+  /\ enc_top ind (JInt z) = (dec_Z z ++ [10])%list
+  /\ ((Z.abs z <= two53)%Z -> parse_json (enc_top ind (JInt z)) = Ok (JInt z)).
+Proof.
+  intros ff z ind Hz. split; [exact (int_exact_yaml ff z Hz)|]. split; [reflexivity|exact (int_exact_json z ind)].
+Qed.
+Print Assumptions C06_int_exact.
+
+(* JSON -> node -> JSON: the node yq builds from a float-free JSON value with
+   int64 integers encodes back to the same value (the YAML text in between is
+   the YAML library's business: contract of C05, tested on the binary). *)
+Theorem C06_json_node_json : forall (ff : str -> res str) (v : jvalue),
+  int64_domain v = true -> to_json ff (of_json v) = Ok v.
+Proof. exact to_json_of_json. Qed.
+Print Assumptions C06_json_node_json.
+
+(* .inf / .nan (every spelling of the YAML core schema) is an error, whatever
+   the float printer is. *)
+Theorem C06_nonfinite_errors : forall (ff : str -> res str) (t : str),
+  In t yaml_nonfinite -> to_json ff (NScalar t_float t) = Err EFloat.
+Proof. exact nonfinite_errors. Qed.
+Print Assumptions C06_nonfinite_errors.
+
+(* Finding: integers above 2^53 are not exact through the JSON reader
+   (setScalarFromJson goes through float64): 9007199254740993 reads as ...992. *)
+Theorem C06_bigint_via_float_refuted : exists z : Z,
+  (- Z.of_N two63 <= z < Z.of_N two63)%Z /\
+  parse_json (enc_top 0 (JInt z)) = Ok (JInt (z - 1)).
+Proof. exists 9007199254740993%Z. split; [vm_compute; split; [discriminate|reflexivity]|vm_compute; reflexivity]. Qed.
 Print Assumptions C06_bigint_via_float_refuted.
+
+(* Finding: the largest int64 comes back as a float token, not as itself. *)
+Theorem C06_maxint64_via_float_refuted :
+  parse_json (enc_top 0 (JInt 9223372036854775807)) = Ok (JFloat (dec_Z 9223372036854775807)).
+Proof. vm_compute. reflexivity. Qed.
+Print Assumptions C06_maxint64_via_float_refuted.
+
+(* With unwrapping on a top-level scalar is printed raw: the output need not
+   be JSON at all, and when it is, it can be a different value. *)
+Theorem C06_unwrap_scalar_refuted :
+  (exists n out, yq_encode no_float 2 true n = Ok out /\ parse_json out = Err ESyntax)
+  /\ (exists n out v, yq_encode no_float 2 true n = Ok out /\ to_json no_float n = Ok v
+                      /\ parse_json out = Ok (JInt 123) /\ v = JStr (str_of_string "123")).
+Proof.
+  split.
+  - exists (NScalar t_str [97; 34; 98]). eexists. split; vm_compute; reflexivity.
+  - exists (NScalar t_str (str_of_string "123")). eexists. eexists. vm_compute. repeat split.
+Qed.
+Print Assumptions C06_unwrap_scalar_refuted.
+
+(* non-vacuity: an adversarial document in the domain of the theorems *)
+Example C06_example :
+  let doc := NMap [ (str_of_string "k""1", NSeq [ NScalar t_int (str_of_string "0x1F");
+                                                  NScalar t_str [34; 10; 1; 226; 128; 168; 240; 159; 152; 128];
+                                                  NScalar t_bool (str_of_string "Yes");
+                                                  NScalar t_null (str_of_string "~"); NSeq []; NMap [] ]) ] in
+  yq_encode no_float 0 false doc
+  = Ok (str_of_string "{""k\""1"":[31,""\""\n\u0001 " ++ [240; 159; 152; 128] ++ str_of_string """,true,null,[],{}]}" ++ [10])%list
+  /\ (exists v, to_json no_float doc = Ok v /\ rt_domain v = true /\ floats_ok jnumber v
+                /\ parse_json (enc_top 7 v) = Ok v).
+Proof.
+  cbv zeta. split; [vm_compute; reflexivity|].
+  eexists. split; [vm_compute; reflexivity|]. split; [vm_compute; reflexivity|].
+  split; [cbn; tauto|vm_compute; reflexivity].
+Qed.
